@@ -236,6 +236,15 @@ Definition emplace_before (st : fv) : fv * outcome :=
   if cap st <=? size st then (st, Raised) (* size_ >= capacity_ *) else (st, Raised) (* key > size_ *).
 Definition insert_range_before (st : fv) : fv * outcome := (st, Raised).               (* key > size_ *)
 
+(* ---- the element constructor called with the emplace arguments throws ----
+   emplace_back(args...): the guard comes first; `value_type(args...)` is evaluated before the assignment into the slot.
+   emplace(pos, args...): both guards come first; `value_type value(args...)` is built before anything is shifted.
+   So the throw happens when nothing has been changed yet (and no element of the array has been touched). *)
+Definition emplace_back_ctor_throws (st : fv) : fv * outcome :=
+  if cap st <=? size st then (st, Raised) else (st, Faulted).
+Definition emplace_ctor_throws (key : nat) (st : fv) : fv * outcome :=
+  if cap st <=? size st then (st, Raised) else if size st <? key then (st, Raised) else (st, Faulted).
+
 (* =====================================================================================================
    A pool of objects, so that copy / move / assignment between objects can be expressed.
    None = no object at that index. *)
@@ -264,7 +273,9 @@ Inductive op :=
 | OInsertSelfRange (i pos a b : nat) | OPushBackSelfRange (i a b : nat)
 (* positions before begin(): erase(begin()-d), emplace(begin()-d, v), insert(begin()-d, first, last) *)
 | OEraseBefore (i d : nat) | OEmplaceBefore (i d v : nat) | OInsertRangeBefore (i d : nat) (xs : list nat)
-| OConstructFrom (i c j : nat)              (* pool[i] = fixed_vector(c, pool[j])     *).
+| OConstructFrom (i c j : nat)              (* pool[i] = fixed_vector(c, pool[j])     *)
+(* emplace_back(args...) / emplace(begin()+pos, args...) whose element constructor throws *)
+| OEmplaceBackCtorThrows (i : nat) | OEmplaceCtorThrows (i pos : nat).
 
 (* a constructor into pool[i]: the old object (if any) is destroyed first; a throwing constructor leaves nothing *)
 Definition construct (P : pool) (i : nat) (r : fv * outcome) : pool * outcome :=
@@ -329,6 +340,8 @@ Definition pstep (p : plan) (o : op) (P : pool) : pool * outcome :=
   | OConstructFrom i c j =>
       if i =? j then (P, Skipped) else
       match pget P j with None => (P, Skipped) | Some src => construct P i (make_from_obj p c src) end
+  | OEmplaceBackCtorThrows i => on_obj P i emplace_back_ctor_throws
+  | OEmplaceCtorThrows i pos => on_obj P i (emplace_ctor_throws pos)
   end.
 
 (* a history: every operation with its own fault plan; the list of outcomes is kept *)
